@@ -37,4 +37,136 @@ theorem httpRange_rejects_malformed (s : Str) (hlen : s.length ≤ Gen.C15.maxSt
 example : parseSpec (ascii "bytes=2-4" |>.map (·.toNat)) = some (.fromTo 2 4) := by decide
 example : parseSpec (ascii "bytes=2-4,6-7" |>.map (·.toNat)) = none := by decide
 
+/-- **Status, Content-Range, Content-Length and the bytes to send are consistent.**  Whatever
+the request headers, whenever `_prepare_open_file` answers 206 there are byte positions
+`first ≤ last < size` such that `Content-Range` is `bytes first-last/size`, `Content-Length`
+is `last-first+1`, and `_sendfile` is asked for exactly `offset = first`, `count = last-first+1`
+(for every Range value: no restriction on length, trailing newline, or If-Range). -/
+theorem range_consistent (isHead iro : Bool) (rng : Option Str) (size : Nat)
+    (h : (prepareOpenFile isHead iro rng size).status = 206) :
+    ∃ first last, first ≤ last ∧ last < size ∧
+      prepareOpenFile isHead iro rng size = partialPlan isHead size first last := by
+  cases iro with
+  | false => rw [prepare_stale] at h; simp [fullPlan] at h
+  | true =>
+    cases hr : httpRange rng with
+    | error e => cases e; rw [prepare_error _ _ _ hr] at h; simp [unsatPlan] at h
+    | ok sl =>
+      rcases httpRange_shape rng sl hr with ⟨rfl, _⟩ | ⟨n, rfl⟩ | ⟨f, rfl⟩ | ⟨f, l, hfl, rfl⟩
+      · rw [prepare_no_range] at h; simp [fullPlan] at h
+      · by_cases hn : 0 < n
+        · rw [prepare_suffix _ _ _ _ hn hr] at h ⊢
+          by_cases hs : size = 0
+          · simp [hs, unsatPlan] at h
+          · simp only [hs, if_false]
+            exact ⟨_, _, by omega, by omega, rfl⟩
+        · have : n = 0 := by omega
+          subst this
+          rw [prepare_suffix_zero _ _ _ hr] at h ⊢
+          by_cases hs : size = 0
+          · simp [hs, unsatPlan] at h
+          · simp only [hs, if_false]
+            exact ⟨_, _, by omega, by omega, rfl⟩
+      · rw [prepare_fromOn _ _ _ _ hr] at h ⊢
+        by_cases hlt : f < size
+        · simp only [hlt, if_true]
+          exact ⟨_, _, by omega, by omega, rfl⟩
+        · simp [hlt, unsatPlan] at h
+      · rw [prepare_fromTo _ _ _ _ _ hfl hr] at h ⊢
+        by_cases hlt : f < size
+        · simp only [hlt, if_true]
+          exact ⟨_, _, by omega, by omega, rfl⟩
+        · simp [hlt, unsatPlan] at h
+
+example : (prepareOpenFile false true (some ((ascii "bytes=2-4").map (·.toNat))) 10).status = 206 := by decide
+
+/- Full statement (FALSE on the unchanged code, see `f15_suffix_zero_served_whole`):
+   ∀ s sp, parseSpec s = some sp → prepareOpenFile isHead true (some s) size =
+     match rfcSlice sp size with | some (f, l) => partialPlan isHead size f l | none => unsatPlan size -/
+/-- **The slice served is the slice requested (RFC 9110 §14.1.2)** — for every well-formed
+single byte range except the zero-length suffix `bytes=-0` (finding F15): a satisfiable
+range is answered 206 with exactly the positions `rfcSlice` selects (last-byte-pos clamped to
+the file, suffix longer than the file = whole file), an unsatisfiable one 416 with
+`Content-Range: bytes */size`.  Missing for the full statement: `sp ≠ .suffix 0`. -/
+theorem range_is_requested_slice_partial (isHead : Bool) (s : Str) (size : Nat) (sp : RangeSpec)
+    (hlen : s.length ≤ Gen.C15.maxStrDigits) (hnl : s.getLast? ≠ some 10)
+    (hsp : parseSpec s = some sp) (hz : sp ≠ .suffix 0) :
+    prepareOpenFile isHead true (some s) size =
+      (match rfcSlice sp size with
+       | some (f, l) => partialPlan isHead size f l
+       | none => unsatPlan size) := by
+  have hr := httpRange_refines_spec s sp hlen hnl hsp
+  cases sp with
+  | fromTo f l =>
+    have hfl := parseSpec_fromTo_le s f l hsp
+    rw [prepare_fromTo _ _ _ _ _ hfl hr]
+    by_cases hlt : f < size <;> simp [rfcSlice, hlt]
+  | fromOn f =>
+    rw [prepare_fromOn _ _ _ _ hr]
+    by_cases hlt : f < size <;> simp [rfcSlice, hlt]
+  | suffix n =>
+    have hn : 0 < n := by
+      rcases Nat.eq_zero_or_pos n with h0 | h0
+      · subst h0; exact absurd rfl hz
+      · exact h0
+    rw [prepare_suffix _ _ _ _ hn hr]
+    by_cases hs : size = 0
+    · simp [rfcSlice, hs]
+    · have : ¬ n = 0 := by omega
+      simp [rfcSlice, hs, this]
+
+example : parseSpec ((ascii "bytes=-3").map (·.toNat)) = some (.suffix 3) ∧ RangeSpec.suffix 3 ≠ .suffix 0 := by decide
+
+/-- **Finding F15 (counterexample to the full statement).**  `Range: bytes=-0` on a 10-byte
+file: RFC 9110 calls a zero-length suffix unsatisfiable, the code answers 206 with the whole
+file (`Content-Range: bytes 0-9/10`), because `start = -0 = 0` no longer looks like a suffix. -/
+theorem f15_suffix_zero_served_whole :
+    parseSpec ((ascii "bytes=-0").map (·.toNat)) = some (.suffix 0) ∧
+    rfcSlice (.suffix 0) 10 = none ∧
+    prepareOpenFile false true (some ((ascii "bytes=-0").map (·.toNat))) 10 = partialPlan false 10 0 9 := by
+  decide
+
+/-- **416 exactly when the request cannot be satisfied.**  With a passing (or absent) If-Range,
+the answer is 416 iff a Range header is present and either is malformed or names no byte of
+the file — stated for header values the grammar lemma covers, with the F15 case (`bytes=-0`
+on a non-empty file, answered 206) spelled out on the right-hand side. -/
+theorem unsatisfiable_416_iff (isHead iro : Bool) (rng : Option Str) (size : Nat)
+    (hlen : ∀ s, rng = some s → s.length ≤ Gen.C15.maxStrDigits ∧ s.getLast? ≠ some 10) :
+    (prepareOpenFile isHead iro rng size).status = 416 ↔
+      iro = true ∧ ∃ s, rng = some s ∧
+        (match parseSpec s with
+         | none => True
+         | some sp => rfcSlice sp size = none ∧ (sp = .suffix 0 → size = 0)) := by
+  cases iro with
+  | false => rw [prepare_stale]; simp [fullPlan]
+  | true =>
+    cases rng with
+    | none => rw [prepare_no_range]; simp [fullPlan]
+    | some s =>
+      obtain ⟨hl, hnl⟩ := hlen s rfl
+      simp only [true_and, Option.some.injEq, exists_eq_left']
+      cases hsp : parseSpec s with
+      | none =>
+        rw [prepare_error _ _ _ (httpRange_rejects_malformed s hl hnl hsp)]
+        simp [unsatPlan]
+      | some sp =>
+        by_cases hz : sp = .suffix 0
+        · subst hz
+          have hr := httpRange_refines_spec s _ hl hnl hsp
+          rw [prepare_suffix_zero _ _ _ hr]
+          by_cases hs : size = 0 <;> simp [hs, unsatPlan, partialPlan, rfcSlice]
+        · rw [range_is_requested_slice_partial isHead s size sp hl hnl hsp hz]
+          cases hsl : rfcSlice sp size with
+          | none => simp [unsatPlan, hz, hsl]
+          | some fl => simp [partialPlan, hsl]
+
+/-- **200 with the whole file when no range applies**: no Range header, or an If-Range date
+older than the file (then the Range header is not even parsed). -/
+theorem full_200_when_no_range_or_stale (isHead iro : Bool) (rng : Option Str) (size : Nat)
+    (h : iro = false ∨ rng = none) :
+    prepareOpenFile isHead iro rng size = fullPlan isHead size := by
+  rcases h with rfl | rfl
+  · exact prepare_stale _ _ _
+  · exact prepare_no_range _ _ _
+
 end Aio.C15
